@@ -755,6 +755,16 @@ def c12(tier):
     for (iface, sigma, L, prefix, label) in jobs:
         s.model("MCScpiSyntax", syntax_params(iface, sigma, L, prefix, starts, True), raw_replay=raw,
                 label="MCScpiSyntax(%s, |Sigma|=%d, L<=%d)" % (label, len(sigma), L), workers=8 if tier == "quick" else 14, heap="12g")
+    # the implementation-shaped parser (transcription of parser.rs) refines the grammar; the pre-repair ordered choice does not
+    pjobs = [(CLASS_SIGMA, 3, ""), ('a"\'\n;, #1', 4, "A:S "), ('1+-.Ee, \n;', 3, "A:P ")] if tier == "quick" else \
+            [(CLASS_SIGMA, 4, ""), ('a"\'\n;, #1', 5, "A:S "), ('1+-.Ee, \n;', 5, "A:P "), ('#HhBbQq1278aF, \n"', 4, "A:P ")]
+    for (sigma, L, prefix) in pjobs:
+        nm, defs = syntax_params("main", sigma, L, prefix, starts[:3], False)
+        s.model("MCScpiParseImpl", (nm, defs + [("LegacyChoice", "FALSE")]), workers=8 if tier == "quick" else 14,
+                label="MCScpiParseImpl(|Sigma|=%d, L<=%d after %r)" % (len(sigma), L, prefix))
+    nm, defs = syntax_params("main", 'a"\n;', 3, "A:S ", starts[:1], False)
+    s.model("MCScpiParseImpl", (nm, defs + [("LegacyChoice", "TRUE")]), expect_violation="ImplRefines",
+            label="MCScpiParseImpl legacy: ordered choice loses Incomplete")
     rpath = os.path.join(s.wd, "c12.report.json")
     rc = C.conf("parsex", raw, rpath, extra_args=["main", json.dumps([[b(m) for m in st] for st in starts])])
     if rc == 3:
